@@ -31,10 +31,12 @@ func init() {
 		Patterns: []string{"./memory"},
 		Explanation: "Row identity in the in-memory editors must be computed by typed comparison or by an injective, collation-aware encoding. Decided: (K1) no string produced by fmt-formatting a dynamically typed row cell (fmt.Sprint*/Fprint* with an interface-typed operand, directly or through strings.Builder / concatenation / helper functions / generic containers) is used as the key of a map lookup, update or delete: `%v` concatenation is not injective ((1,23) vs (12,3)) and ignores the column's collation; " +
 			"(K2) in the code reachable from the table editors (methods of the sql.EditOpenerCloser implementations of package memory, static calls plus class-hierarchy resolution of interface calls inside the package) no two row cells are compared with Go's == / != on interface values or reflect.DeepEqual: identity of key cells has to go through the column type's Compare (collation, padding, numeric equality); " +
-			"(P) pending-edit precedence: for every implementation of memory.tableEditAccumulator the bodies of Insert and Delete are folded over every edit history (length <= 3) of one key (cmap.Map containers) or of two row values (list containers, only histories in which a delete names an existing row), starting from a table that does / does not hold the row; Get, GetByCols and ApplyEdits are then folded on the resulting pending state: the found flag of Get / GetByCols must equal 'the latest edit of the key is an insert, or there is no edit and the row is stored' (keyless: the net row count is positive) and ApplyEdits must leave exactly the rows the edits leave when applied in order.",
-		NotCovered: "how the editor and the plan nodes use the verdicts (IGNORE / REPLACE / ON DUPLICATE KEY handling), prefix lengths, NULL handling in unique indexes, the virtual-column branch of GetByCols (HasVirtualColumns is folded as false), interaction of several distinct keys that share a unique value (P tracks one key), what columnsMatch / the key function consider equal (K1, K2), integrator backends",
-		Technique:  "interprocedural SSA taint (sources: fmt formatting of interface-typed cells; sinks: map key operands) + SSA def-use classification of interface comparisons + finite-domain folding (eng_mini) of the accumulator methods over edit histories",
-		Run:        func(c *Ctx) { runC14(c, c14Repo); runC14P(c, c14pRepo) },
+			"(P) pending-edit precedence: for every implementation of memory.tableEditAccumulator the bodies of Insert and Delete are folded over every edit history (length <= 3) of one key (cmap.Map containers) or of two row values (list containers, only histories in which a delete names an existing row), starting from a table that does / does not hold the row; Get, GetByCols and ApplyEdits are then folded on the resulting pending state: the found flag of Get / GetByCols must equal 'the latest edit of the key is an insert, or there is no edit and the row is stored' (keyless: the net row count is positive) and ApplyEdits must leave exactly the rows the edits leave when applied in order. " +
+			"(Y1) prefix-length truncation is symmetric: every function of package memory that receives two rows and the index prefix lengths ([]uint16) - columnsMatch, the comparator behind every GetByCols uniqueness probe - cuts both compared cells by the same function of (cell, declared prefix length): on the SSA form, every bound of a slice applied to a value that derives from one row parameter " +
+			"(in the function or in a same-package helper it calls, summarised in the helper's parameters) derives from the prefix-length parameter and from no cell of the other row parameter (def-use closure through phis, conversions, type assertions, len and other calls, loads of address-taken locals), and the sets of truncated cell types of the two rows are equal. A bound that is clamped to the first cell's length and not re-initialised before the second truncation makes a stored value shorter than the prefix match every value that starts with it.",
+		NotCovered: "how the editor and the plan nodes use the verdicts (IGNORE / REPLACE / ON DUPLICATE KEY handling), prefix lengths beyond the symmetry clause Y1 (that the right index's lengths are passed, character vs byte length, control dependence of a bound on the other cell), NULL handling in unique indexes, the virtual-column branch of GetByCols (HasVirtualColumns is folded as false), interaction of several distinct keys that share a unique value (P tracks one key), what columnsMatch / the key function consider equal (K1, K2), integrator backends",
+		Technique:  "interprocedural SSA taint (sources: fmt formatting of interface-typed cells; sinks: map key operands) + SSA def-use classification of interface comparisons + finite-domain folding (eng_mini) of the accumulator methods over edit histories + SSA def-use closure of slice bounds with helper summaries",
+		Run:        func(c *Ctx) { runC14(c, c14Repo); runC14P(c, c14pRepo); runC14Y(c, c14yRepo) },
 		Fixture: func(c *Ctx, fx *Prog) {
 			p := c14Params{srcPkgs: []string{"testdata/c14/mem"}, flowPkgs: []string{"testdata/c14/cmap"}, rowRel: "testdata/c14/sql", rowType: "Row", ocIface: "EditOpenerCloser", floors: map[string]int{}}
 			expectFixture(c, fx, "c14: formatted keys and == on cells must be reported", []string{
@@ -42,6 +44,11 @@ func init() {
 				"C14-K1:testdata/c14/mem.acc.seen/formatted-cell-map-key",
 				"C14-K2:testdata/c14/mem.sameKey/cell-equality",
 			}, func(fc *Ctx) { runC14(fc, p) })
+			expectFixture(c, fx, "c14y: a truncation bound that depends on the other row's cell, and a one-sided truncation, must be reported", []string{
+				"C14-Y1:testdata/c14/mem.matchStale/bound of b",
+				"C14-Y1:testdata/c14/mem.matchHelperOneSide/bound of b",
+				"C14-Y1:testdata/c14/mem.matchHelperOneSide/same truncation on both rows",
+			}, func(fc *Ctx) { runC14Y(fc, c14yParams{rels: []string{"testdata/c14/mem"}, rowRel: "testdata/c14/sql", rowType: "Row"}) })
 			pp := c14pParams{memRel: "testdata/c14p/mem", sqlRel: "testdata/c14p/sql", cmapRel: "testdata/c14p/cmap", accIface: "accumulator", cmapType: "Map",
 				insertFn: "Insert", deleteFn: "Delete", getFn: "Get", byColsFn: "GetByCols", applyFn: "ApplyEdits", insertHelper: "insertHelper", deleteHelper: "deleteHelper",
 				matchFn: "columnsMatch", rowType: "Row", equalsFn: "Equals", tableDataType: "TableData", partitionsField: "partitions"}
